@@ -695,8 +695,13 @@ def main_check(mod, argv):
         assumptions=list(getattr(mod, "ASSUMPTIONS", [])),
         wall_s=round(time.time() - t0, 2), violations=len(violations),
     )
-    os.makedirs(os.path.join(VERIF, "evidence"), exist_ok=True)
-    with open(os.path.join(VERIF, "evidence", pid + ".json"), "w") as f:
+    # evidence/<ID>.json describes runs against /repo itself; a run pointed at another tree (VERIF_REPO, used to try
+    # seeded changes without touching /repo) writes to .work/evidence-other instead, so committed evidence is never
+    # the record of a run on a modified tree
+    evdir = os.path.join(VERIF, "evidence") if os.path.realpath(os.environ.get("VERIF_REPO", "/repo")) == "/repo" \
+        else os.path.join(WORK, "evidence-other")
+    os.makedirs(evdir, exist_ok=True)
+    with open(os.path.join(evdir, pid + ".json"), "w") as f:
         json.dump(ev, f, indent=1, default=str)
 
     for ln in known_lines:
